@@ -247,6 +247,23 @@ def run(ctx: Ctx):
         # the recomputation happens after the owner clear
         if clears and not all(g.can_reach(c, clears_ready[0]) for c in clears):
             ctx.fail(cons + "#order", rem.loc(), "readiness is recomputed before Peer.connection is cleared")
+    # an application registered when one of its peers is ready already reports ready
+    ctx.cur("C13-R5")
+    aa = nc.methods.get("add_application")
+    cons_a = "add_application:readiness"
+    ctx.inst(cons_a)
+    if aa is None:
+        ctx.error("Node.add_application not found", rule="C13-R5")
+    else:
+        ga = cfg_of(aa)
+        sets_ = [n for n in ga.nodes if n.kind == "stmt" and any(
+            A.call_name(c).endswith(".is_ready.set") for c in n.calls())]
+        looks = "PEER_READY_STATES" in ast.unparse(aa.node) or "PEER_READY" in ast.unparse(aa.node)
+        if not sets_ or not looks:
+            ctx.fail(cons_a, aa.loc(), "add_application never evaluates readiness: it is only set when a "
+                     "connection completes its capabilities exchange and cleared when one is removed, "
+                     "so an application registered for a peer that is connected already never reports "
+                     "ready (wait_for_ready fails) although requests are routed to that peer")
     # a second connection of an already connected peer is detected (election / refusal)
     ctx.rule("C13-R9", "receive_cer recognises the other connections of the same peer by their "
                        "peer identity", floor=1)
@@ -327,3 +344,5 @@ def run(ctx: Ctx):
     # writer, readers and purge of the flat transaction tables agree on the key
     from .common_node import transaction_table_keys
     transaction_table_keys(ctx, "C13-R12")
+    from .common_node import close_is_thread_tolerant
+    close_is_thread_tolerant(ctx, "C13-R13")
